@@ -331,25 +331,51 @@ impl<D: DependencyProvider, RT: AsyncRuntime> Solver<D, RT> {
                   should have returned Err instead of Ok(false) if root is unsolvable"
         );
 
-        for additional in problem.soft_requirements {
-            let additional_var = self.state.variable_map.intern_solvable(additional);
+        // A conflict found while solving for a soft requirement can backtrack below the
+        // level at which that soft requirement was started. This undoes soft
+        // requirements that were accepted before it, and the one that is being solved
+        // for, without deciding them either way. What was learnt from the conflict is
+        // kept, so soft requirements that are left undecided are tried again for as
+        // long as that makes progress.
+        let soft_requirements: Vec<SolvableId> = problem.soft_requirements.into_iter().collect();
+        let mut learnt_before_pass = None;
+        loop {
+            let mut undecided = false;
+            for &additional in &soft_requirements {
+                let additional_var = self.state.variable_map.intern_solvable(additional);
 
-            if self
-                .state
-                .decision_tracker
-                .assigned_value(additional_var)
-                .is_none()
-            {
-                // A soft requirement is requested directly instead of through a
-                // version set, so it has to be registered as a candidate of its
-                // package here. Otherwise nothing forbids it from being selected
-                // next to another solvable of the same package.
-                let name_id = self.provider().solvable_name(additional);
-                self.state
-                    .add_forbid_multiple_clauses(name_id, additional_var);
+                if self
+                    .state
+                    .decision_tracker
+                    .assigned_value(additional_var)
+                    .is_none()
+                {
+                    // A soft requirement is requested directly instead of through a
+                    // version set, so it has to be registered as a candidate of its
+                    // package here. Otherwise nothing forbids it from being selected
+                    // next to another solvable of the same package.
+                    let name_id = self.provider().solvable_name(additional);
+                    self.state
+                        .add_forbid_multiple_clauses(name_id, additional_var);
 
-                self.run_sat(additional.into(), &root_dependencies)?;
+                    self.run_sat(additional.into(), &root_dependencies)?;
+                }
             }
+
+            for &additional in &soft_requirements {
+                let additional_var = self.state.variable_map.intern_solvable(additional);
+                undecided |= self
+                    .state
+                    .decision_tracker
+                    .assigned_value(additional_var)
+                    .is_none();
+            }
+
+            let learnt = self.state.learnt_clause_ids.len();
+            if !undecided || learnt_before_pass == Some(learnt) {
+                break;
+            }
+            learnt_before_pass = Some(learnt);
         }
 
         #[cfg(feature = "diagnostics")]
